@@ -94,6 +94,7 @@ Definition c_randint := o_randint.
 Definition c_randnumber := o_randnumber.
 Definition c_randprime := o_randprime.
 Definition c_randqr := o_randqr.
+Definition c_prim := o_prim.
 
 Definition scalar_of_be (b : bytes) : option N := fr_of_be b.
 
@@ -104,4 +105,4 @@ Extraction "model.ml"
   r_dec_pk2xy scalar_of_be N.of_nat N.to_nat
   c_params c_map c_keygen c_bases c_cpk c_sign c_sign1 c_verify c_verify1 c_disclose c_sigcodec c_sigfrombytes c_pkcodec
   c_pkfrombytes c_skcodec c_commit c_commitcpk c_extend c_zkgen c_zkver c_blindsign c_unblind c_update c_spokgen c_spokver
-  c_rpprove c_rpverify c_randbits c_randint c_randnumber c_randprime c_randqr.
+  c_rpprove c_rpverify c_randbits c_randint c_randnumber c_randprime c_randqr c_prim.
